@@ -647,7 +647,7 @@ func unitC09(e common.Env, p *common.Part) {
 	}
 	idx := 0
 	for _, x := range nts {
-		for rep := 0; rep < e.Pick(1, 40); rep++ {
+		for rep := 0; rep < e.Pick(1, 160); rep++ {
 			for part := 0; part < 3; part++ {
 				idx++
 				if !e.Mine(idx) || p.ViolationCount() >= 3 {
